@@ -402,6 +402,14 @@ struct QueTarget
         case Q_SWAP:
         {
             c.site("a_que_swap");
+            if (o.a[3] % 5 == 0)
+            { // both arguments name the same object: an exchange with itself changes nothing
+                int const w = (int)(o.a[2] & 1);
+                a_que_swap(box[w].q, box[w].q);
+                c.st.add("probe.swap_with_itself");
+                check_all("a_que_swap");
+                break;
+            }
             a_que_swap(box[0].q, box[1].q);
             std::swap(box[0].M, box[1].M); std::swap(box[0].z, box[1].z);
             if (!box[0].M.empty() && !box[1].M.empty()) c.st.add("probe.whole_queue_swap_both_nonempty");
